@@ -121,6 +121,9 @@ def check_case(ctx, case):
         full = [{"name": "cls", "kind": "po" if any(p["kind"] == "po" for p in params) else "pk", "ann": "none", "has_default": False}] + full
         offset = 1
     rec = BodyRecorder()
+    if case.get("ret_ann") == "iterator":
+        rec.result = (i for i in range(3))  # a plain function annotated '-> Iterator[int]' that returns a generator object
+    body_exc = {"ValueError": ValueError, "RecursionError": RecursionError, "MemoryError": MemoryError, "LookupError": LookupError}[case.get("body_exc", "ValueError")]
     ns = {"__body": rec}
     src, ns = gs.render(full, fname, kind=kind, ret_ann=case.get("ret_ann"), ns=ns)
     try:
@@ -197,7 +200,7 @@ def check_case(ctx, case):
     n_calls = 0
     if desc == "property":
         for raising in (False, True):
-            rec.exc = ValueError("from body") if raising else None
+            rec.exc = body_exc("from body") if raising else None
             rec.calls.clear()
             try:
                 out = getattr(inst, fname)
@@ -224,7 +227,7 @@ def check_case(ctx, case):
                     ctx.excluded_known += 1  # the known-finding pattern was reachable here and was left out by construction
                 args, kwargs, recv = made
                 for raising in (False, True):
-                    rec.exc = ValueError("from body") if raising else None
+                    rec.exc = body_exc("from body") if raising else None
                     rec.calls.clear()
                     f, bound_first = target(True)
                     st_, val = drive(kind, f, list(args), dict(kwargs))
@@ -341,7 +344,8 @@ def c07_case(draw):
         "fname": draw(st.sampled_from([n for n in gs.FN_NAMES if n not in {p["name"] for p in params} or True])),
         "checker": draw(st.sampled_from(["beartype", "typeguard"])),
         "styles": [0, draw(st.integers(1, 15)), 15, draw(st.integers(16, 31))],
-        "ret_ann": draw(st.sampled_from(["obj", None, None])) if kind != "async" else draw(st.sampled_from([None, "obj"])),
+        "ret_ann": draw(st.sampled_from(["obj", None, "iterator", None])) if kind != "async" else draw(st.sampled_from([None, "obj"])),
+        "body_exc": draw(st.sampled_from(["ValueError", "RecursionError", "ValueError", "MemoryError", "LookupError"])),
         "lambda_annotations": draw(st.sampled_from([True, False])),
         "via": draw(st.sampled_from([None, "wraps", None, "asyncwrap", None])),
     }
